@@ -751,3 +751,24 @@ benign(
     (UTILF, "    shape = tuple(s - n if i == axis else s for i, s in enumerate(x.shape))\n    chunks = normalize_chunks(x.chunksize, shape, dtype=x.dtype)", "    shape = tuple(s - n if i == axis else s for i, s in enumerate(x.shape))\n    dtype = x.dtype\n    chunks = normalize_chunks(x.chunksize, shape, dtype=dtype)"),
     (UTILF, "        x,\n        dtype=x.dtype,\n        chunks=chunks,\n        depth=depth,", "        x,\n        dtype=dtype,\n        chunks=chunks,\n        depth=depth,"),
 )
+# seeded round 2 (C05-4 / C06-3): the proxy keeps an open handle across the re-targeting of the store operation
+PTYPES_F = "cubed/primitive/types.py"
+mutant(
+    "M124-proxy-caches-open-handle",
+    ["C05", "C06", "C11"],
+    "PROXY-OPEN-1",
+    (PTYPES_F, "        self.array = array\n        self.chunks = chunks\n\n    def open(self) -> zarr.Array:\n        return open_if_lazy_zarr_array(self.array)", "        self.array = array\n        self.chunks = chunks\n        self._opened = None\n\n    def open(self) -> zarr.Array:\n        if self._opened is None:\n            self._opened = open_if_lazy_zarr_array(self.array)\n        return self._opened"),
+    also=("TASK-PURE-1",),
+)
+mutant(
+    "M125-proxy-open-memoised-by-decorator",
+    ["C05", "C06", "C11"],
+    "PROXY-OPEN-1",
+    (PTYPES_F, "    def open(self) -> zarr.Array:\n        return open_if_lazy_zarr_array(self.array)", "    @functools.cache\n    def open(self) -> zarr.Array:\n        return open_if_lazy_zarr_array(self.array)"),
+    (PTYPES_F, "class CubedArrayProxy:", "import functools\n\n\nclass CubedArrayProxy:"),
+)
+benign(
+    "B-proxy-open-with-local",
+    ["C05", "C06", "C11"],
+    (PTYPES_F, "    def open(self) -> zarr.Array:\n        return open_if_lazy_zarr_array(self.array)", "    def open(self) -> zarr.Array:\n        \"\"\"Open the (possibly lazy) array this proxy currently points to.\"\"\"\n        opened = open_if_lazy_zarr_array(self.array)\n        return opened"),
+)
